@@ -186,11 +186,12 @@ func runPipe(c *pipeCase) string {
 				var o2 bytes.Buffer
 				_, e2 := zr2.WriteTo(&o2)
 				verifhook.Stop()
-				if e2 == nil && !bytes.Equal(o2.Bytes(), data) {
+				if e2 == nil && !bytes.Equal(o2.Bytes(), data) && !c.legacy {
+					// (legacy frames carry no checksum: a flipped literal byte is simply other content)
 					// (a flipped byte of a compressed block can leave its decoded bytes unchanged,
 					// e.g. another offset into a run: then there is nothing to report)
 					rd = "fail:corrupted-frame-read-without-error-and-other-content"
-				} else if !bytes.HasPrefix(data, o2.Bytes()) {
+				} else if e2 != nil && !bytes.HasPrefix(data, o2.Bytes()) && !c.legacy {
 					rd = "fail:corrupted-frame-delivered-non-prefix"
 				}
 			}
@@ -220,6 +221,15 @@ func compPipe(o *out, seed uint64, tier string) {
 		if r.intn(3) == 0 {
 			c.flush = 1 + r.intn(3)
 			c.chunk = []int{1000, 30000, 65537, 100000}[r.intn(4)]
+		}
+		if i%6 == 5 {
+			// legacy frames written concurrently in many small blocks (Write; Flush per record): the
+			// 8 MiB block buffers go back and forth between the producer, the workers and the pools
+			c.legacy = true
+			c.flush = 1
+			c.chunk = []int{1000, 5000}[r.intn(2)]
+			c.nblk, c.tail = r.intn(3), []int{100, 65535}[r.intn(2)]
+			c.reuse = r.intn(2) == 0
 		}
 		if r.intn(5) == 0 {
 			c.fault = 1 + r.intn(3*(c.nblk+1)+2)
